@@ -87,7 +87,7 @@ ReplayRecord ==
    accepted |-> Accepted, err |-> err, pviol |-> IF Terminal THEN PViol ELSE {},
    oracle |-> [mustReject |-> MustReject, expected |-> Expected, base |-> EBase,
                defaultIdx |-> IF MarkCount = 1 THEN CHOOSE i \in DOMAIN EDef.vars : EDef.vars[i].dflt ELSE 0,
-               kf |-> IF KF_Range THEN <<"C08:discriminant-out-of-range">> ELSE <<>>],
+               kf |-> IF KF_Range THEN <<"C08:discriminant-out-of-range", "C13:discriminant-out-of-range">> ELSE <<>>],
    mirror |-> [reg |-> RegView, out |-> out]]
 
 Replay == Terminal => PrintT(<<"REPLAY", ToJson(ReplayRecord)>>)
